@@ -23,7 +23,7 @@ RULE_TEXT = ('runs = seeded random suite hierarchies (depth <= 3, <= 3 sub-suite
              'file); a fixed sweep assigns every verdict to a case of a one-suite and of a two-level hierarchy. Each '
              'plan runs with both reporters. Non-trivial = >= 2 cases or a structural fault; distinct = (hierarchy '
              'shape, listing styles, multiset of endings, structural fault).')
-REACH_PROBES = ['suites_by_glob_of_directories', 'suites_by_glob_of_files', 'ending_processor_fails', 'verdict_PASS', 'verdict_FAIL', 'verdict_XFAIL', 'verdict_XPASS', 'verdict_SKIPPED',
+REACH_PROBES = ['section_reopened', 'suites_by_glob_of_directories', 'suites_by_glob_of_files', 'ending_processor_fails', 'verdict_PASS', 'verdict_FAIL', 'verdict_XFAIL', 'verdict_XPASS', 'verdict_SKIPPED',
                 'verdict_VALIDATION_ERROR', 'verdict_HARD_ERROR', 'verdict_INTERNAL_ERROR', 'verdict_SYNTAX_ERROR',
                 'verdict_FILE_ACCESS_ERROR', 'ending_act_syntax', 'ending_unreadable', 'ending_timeout', 'all_ok',
                 'some_unsuccessful', 'sub_suite', 'depth_3', 'glob_listing', 'directory_reference', 'invalid_twice',
@@ -134,6 +134,8 @@ def gen_hierarchy(g, force_subs=False):
     # how a suite lists its sub-suites: by name (files / directories), or by a glob that matches directories with a
     # default suite file, or by a glob that matches suite files; glob matches are processed in sorted order
     for key, s in h.items():
+        # "A section may appear any number of times. The contents of all appearances are accumulated."
+        s['reopen'] = g.random() < 0.3
         s['subs_style'] = 'explicit'
         if s['subs'] and g.random() < 0.4:
             style = g.choice(['glob_dirs', 'glob_files'])
@@ -207,6 +209,13 @@ def build_world(plan, w):
     fsfaults = []
     for key, s in h.items():
         lines = []
+        case_lines_all, _order = listing(s)
+        head_cases = []
+        if s.get('reopen') and len(case_lines_all) >= 2:
+            # the first case lines come before any header (default section = cases); the rest in a re-opened [cases]
+            k = max(1, len(case_lines_all) // 2)
+            head_cases = case_lines_all[:k]
+            lines.extend(head_cases)
         if s['subs']:
             lines.append('[suites]')
             style = s.get('subs_style', 'explicit')
@@ -220,12 +229,22 @@ def build_world(plan, w):
                     rel = sub['dir'][len(s['dir']):].lstrip('/')
                     lines.append(rel if sub['ref'] == 'dir' else os.path.join(rel, sub['file']))
         case_lines, order = listing(s)
-        if case_lines:
+        case_lines = case_lines[len(head_cases):]
+        if s.get('reopen') and s['setup_marker'] and len(case_lines) >= 2:
+            # [cases] ... [setup] ... [cases] again
             lines.append('[cases]')
-            lines.extend(case_lines)
-        if s['setup_marker']:
+            lines.append(case_lines[0])
             lines.append('[setup]')
             lines.append('% suite-setup-' + key)
+            lines.append('[cases]')
+            lines.extend(case_lines[1:])
+        else:
+            if case_lines:
+                lines.append('[cases]')
+                lines.extend(case_lines)
+            if s['setup_marker']:
+                lines.append('[setup]')
+                lines.append('% suite-setup-' + key)
         w.write(os.path.join('home', s['dir'], s['file']), '\n'.join(lines) + '\n')
         for c, f in order:
             text, ident, marker = ENDINGS[c['ending']]
@@ -399,6 +418,8 @@ def _probes(plan, hist):
         if any(s['ref'] == 'dir' for s in h.values()):
             pr['directory_reference'] = 1
         for s in h.values():
+            if s.get('reopen') and len(s['cases']) >= 2:
+                pr['section_reopened'] = 1
             if s.get('subs_style') == 'glob_dirs':
                 pr['suites_by_glob_of_directories'] = 1
             if s.get('subs_style') == 'glob_files':
